@@ -515,6 +515,10 @@ func reachWithoutFrom(start ipos, target, avoid func(ssa.Instruction) bool, ok e
 		blocked := false
 		for i := it.from; i < len(it.b.Instrs); i++ {
 			in := it.b.Instrs[i]
+			if avoid != nil && avoid(in) {
+				blocked = true
+				break
+			}
 			if target(in) {
 				var path []*ssa.BasicBlock
 				for b := it.b; b != nil; b = parent[b] {
